@@ -250,7 +250,7 @@ class World:
                 self.paths.append((*self.paths[i], op))
         elif kind == "extend":
             for i in range(len(self.retorts)):
-                self.retorts.append(self.retorts[i].extend(recipe=[EXT_PROVIDERS[op[1]]()]))
+                self.retorts.append(self.retorts[i].extend(recipe=iter([EXT_PROVIDERS[op[1]]()])))   # a recipe is any iterable: it must be copied
                 self.paths.append((*self.paths[i], op))
         elif kind == "filler":
             from adaptix._internal.type_tools import normalize_type
@@ -273,7 +273,7 @@ class World:
                 pass
         elif kind == "conv_extend":
             for i in range(len(self.conv)):
-                self.conv.append(self.conv[i].extend(recipe=[CONV_EXT[op[1]]()]))
+                self.conv.append(self.conv[i].extend(recipe=iter([CONV_EXT[op[1]]()])))
                 self.conv_paths.append((*self.conv_paths[i], op))
         else:
             raise ValueError(op)
@@ -552,9 +552,55 @@ def located_leg(report, max_len):
                     break
 
 
+def constructor_recipe_leg(report):
+    """the recipe given to the constructor may be any iterable (a generator, a list the caller reuses afterwards): the retort and
+    every clone made later by replace()/extend() must keep exactly the providers it was given"""
+    def plus1():
+        return loader(int, lambda d: d + 1 if type(d) is int else d)
+
+    def times10():
+        return dumper(int, lambda d: d * 10 if type(d) is int else d)
+    kinds = {
+        "list": lambda ps: (list(ps), None),
+        "tuple": lambda ps: (tuple(ps), None),
+        "iterator": lambda ps: (iter(ps), None),
+        "generator": lambda ps: ((p for p in ps), None),
+        "list emptied afterwards": lambda ps: (lst := list(ps), lst.clear)[0:2],
+        "list extended afterwards": lambda ps: (lst := list(ps), lambda: lst.insert(0, loader(int, lambda d: -1)))[0:2],
+    }
+    for rcls, mk_ps, probe, want0 in ((Retort, lambda: [plus1(), times10()], lambda r: (r.load(1, int), r.dump(1, int)), (2, 10)),):
+        for kname, mk in kinds.items():
+            recipe, afterwards = mk(mk_ps())
+            root = rcls(recipe=recipe)
+            if afterwards:
+                afterwards()
+            derived = {
+                "the retort itself": lambda: root,
+                "replace(strict_coercion=False)": lambda: root.replace(strict_coercion=False),
+                "replace().replace()": lambda: root.replace(debug_trail=DebugTrail.FIRST).replace(strict_coercion=False),
+                "extend([])": lambda: root.extend(recipe=[]),
+                "extend(dumper *10 again)": lambda: root.extend(recipe=iter([times10()])),
+                "extend().replace()": lambda: root.extend(recipe=[times10()]).replace(strict_coercion=False),
+            }
+            for dname, mkd in derived.items():
+                case = {"leg": "constructor_recipe", "recipe_kind": kname, "derived": dname}
+                report.case(("ctor_recipe", kname, dname), nontrivial=True, sample=case)
+                report.evaluations += 1
+                want = want0      # a second dumper(int, *10) in front serves alone (no chain): still 10
+                try:
+                    got = probe(mkd())
+                except Exception as e:  # noqa: BLE001
+                    got = f"{type(e).__name__}: {str(e)[:80]}"
+                if got != want:
+                    report.violation({"check": "C11", "kind": "constructor_recipe_not_copied"},
+                                     f"Retort(recipe=<{kname}> of [loader(int,+1), dumper(int,*10)]) then {dname}: (load(1), dump(1)) = {got}, "
+                                     f"the providers given to the constructor mean {want}", case)
+
+
 def run(tier):
     report = Report()
     located_leg(report, 2 if tier == "quick" else 3)
+    constructor_recipe_leg(report)
     ops = operations()
     if tier == "quick":
         # every history of length 1, and every history of length 2 whose first operation touches a shared key class, a
@@ -590,6 +636,11 @@ def extra_evidence(report, tier):
 
 def replay(case):
     report = Report()
+    if case.get("leg") == "constructor_recipe":
+        constructor_recipe_leg(report)
+        for v in report.violations.values():
+            return v["what"]
+        return None
     if case.get("leg") == "located":
         located_leg(report, len(case["history"]))
         for v in report.violations.values():
